@@ -20,12 +20,12 @@ func init() {
 }
 
 type c11Case struct {
-	Window  int    `json:"window"`
-	Type    string `json:"type"`  // "" EVENT VOD
-	Style   string `json:"style"` // rel abs query range range0
-	Start   int    `json:"start"` // media sequence number of the first playlist
-	Events  []int  `json:"events"` // between polls: advance by k (0,1,2,3,6) or -1 = append ENDLIST
-	Audio   []int  `json:"audio,omitempty"` // a second, independently evolving rendition (multivariant entry point)
+	Window int    `json:"window"`
+	Type   string `json:"type"`            // "" EVENT VOD
+	Style  string `json:"style"`           // rel abs query range range0
+	Start  int    `json:"start"`           // media sequence number of the first playlist
+	Events []int  `json:"events"`          // between polls: advance by k (0,1,2,3,6) or -1 = append ENDLIST
+	Audio  []int  `json:"audio,omitempty"` // a second, independently evolving rendition (multivariant entry point)
 }
 
 func (c c11Case) String() string {
